@@ -294,4 +294,82 @@ double e2e_as_double(JsonVariantConst v) { return v.as<double>(); }
 bool e2e_array_set(JsonArray dst, JsonArrayConst src) { return dst.set(src); }
 bool e2e_array_add_variant(JsonArray a, JsonVariantConst v) { return a.add(v); }
 bool e2e_array_add_int(JsonArray a, int v) { return a.add(v); }
+bool e2e_element_set_cstr(JsonDocument& d, size_t i, const char* s) { return d[i].set(s); }
+bool e2e_member_set_cstr(JsonDocument& d, const char* k, const char* s) { return d[k].set(s); }
+bool e2e_element_set_int(JsonDocument& d, size_t i, int v) { return d[i].set(v); }
+
+// ---- which string storage path a wrapper selects for each SOURCE KIND (C14: char* / char[] are copied, const char* / literals are
+//      kept by address, JsonString says which).  The overload is chosen at the user's call site, so each source kind needs a call.
+typedef char CharBuf[8];
+bool sk_doc_set_array(JsonDocument& d, CharBuf& a) { return d.set(a); }
+bool sk_doc_set_ptr(JsonDocument& d, char* p) { return d.set(p); }
+bool sk_doc_set_cptr(JsonDocument& d, const char* c) { return d.set(c); }
+bool sk_doc_set_literal(JsonDocument& d) { return d.set("lit"); }
+bool sk_doc_set_jsonstring(JsonDocument& d, JsonString s) { return d.set(s); }
+bool sk_variant_set_array(JsonVariant v, CharBuf& a) { return v.set(a); }
+bool sk_variant_set_ptr(JsonVariant v, char* p) { return v.set(p); }
+bool sk_variant_set_cptr(JsonVariant v, const char* c) { return v.set(c); }
+bool sk_variant_set_literal(JsonVariant v) { return v.set("lit"); }
+bool sk_member_set_array(JsonDocument& d, const char* k, CharBuf& a) { return d[k].set(a); }
+bool sk_member_set_ptr(JsonDocument& d, const char* k, char* p) { return d[k].set(p); }
+bool sk_member_set_cptr(JsonDocument& d, const char* k, const char* c) { return d[k].set(c); }
+bool sk_member_set_literal(JsonDocument& d, const char* k) { return d[k].set("lit"); }
+void sk_member_assign_array(JsonDocument& d, const char* k, CharBuf& a) { d[k] = a; }
+void sk_member_assign_ptr(JsonDocument& d, const char* k, char* p) { d[k] = p; }
+void sk_member_assign_cptr(JsonDocument& d, const char* k, const char* c) { d[k] = c; }
+void sk_member_assign_literal(JsonDocument& d, const char* k) { d[k] = "lit"; }
+bool sk_element_set_array(JsonDocument& d, size_t i, CharBuf& a) { return d[i].set(a); }
+bool sk_element_set_ptr(JsonDocument& d, size_t i, char* p) { return d[i].set(p); }
+bool sk_element_set_cptr(JsonDocument& d, size_t i, const char* c) { return d[i].set(c); }
+void sk_element_assign_array(JsonDocument& d, size_t i, CharBuf& a) { d[i] = a; }
+void sk_element_assign_literal(JsonDocument& d, size_t i) { d[i] = "lit"; }
+bool sk_array_add_array(JsonArray r, CharBuf& a) { return r.add(a); }
+bool sk_array_add_ptr(JsonArray r, char* p) { return r.add(p); }
+bool sk_array_add_cptr(JsonArray r, const char* c) { return r.add(c); }
+bool sk_array_add_literal(JsonArray r) { return r.add("lit"); }
+bool sk_docadd_array(JsonDocument& d, CharBuf& a) { return d.add(a); }
+bool sk_docadd_ptr(JsonDocument& d, char* p) { return d.add(p); }
+bool sk_docadd_cptr(JsonDocument& d, const char* c) { return d.add(c); }
+bool sk_docadd_literal(JsonDocument& d) { return d.add("lit"); }
+// keys: a member created under a key given as ... (the key is stored like a value: copied or kept by address)
+bool sk_dockey_array(JsonDocument& d, CharBuf& a) { return d[a].set(1); }
+bool sk_dockey_ptr(JsonDocument& d, char* p) { return d[p].set(1); }
+bool sk_dockey_cptr(JsonDocument& d, const char* c) { return d[c].set(1); }
+bool sk_dockey_literal(JsonDocument& d) { return d["lit"].set(1); }
+bool sk_dockey_jsonstring(JsonDocument& d, JsonString s) { return d[s].set(1); }
+bool sk_objkey_array(JsonObject o, CharBuf& a) { return o[a].set(1); }
+bool sk_objkey_ptr(JsonObject o, char* p) { return o[p].set(1); }
+bool sk_objkey_cptr(JsonObject o, const char* c) { return o[c].set(1); }
+bool sk_objkey_literal(JsonObject o) { return o["lit"].set(1); }
+bool sk_objkey_jsonstring(JsonObject o, JsonString s) { return o[s].set(1); }
+bool sk_varkey_array(JsonVariant v, CharBuf& a) { return v[a].set(1); }
+bool sk_varkey_ptr(JsonVariant v, char* p) { return v[p].set(1); }
+bool sk_varkey_cptr(JsonVariant v, const char* c) { return v[c].set(1); }
+bool sk_varkey_literal(JsonVariant v) { return v["lit"].set(1); }
+// copyArray from an array of mutable char arrays
+typedef char CharBuf2[2][8];
+bool sk_copyarray_char_arrays(CharBuf2& src, JsonDocument& d) { return copyArray(src, d); }
+
+// ---- JsonDocument's own thin accessors (unit api_doc) ---------------------------------------------------------------------------
+int dq_as_int(JsonDocument& d) { return d.as<int>(); }
+float dq_as_float(JsonDocument& d) { return d.as<float>(); }
+const char* dq_as_cstr(JsonDocument& d) { return d.as<const char*>(); }
+JsonArray dq_as_array(JsonDocument& d) { return d.as<JsonArray>(); }
+JsonObjectConst dq_as_objectconst(const JsonDocument& d) { return d.as<JsonObjectConst>(); }
+JsonVariantConst dq_as_variantconst(const JsonDocument& d) { return d.as<JsonVariantConst>(); }
+bool dq_is_int(const JsonDocument& d) { return d.is<int>(); }
+bool dq_is_array(JsonDocument& d) { return d.is<JsonArray>(); }
+bool dq_isNull(const JsonDocument& d) { return d.isNull(); }
+size_t dq_size(const JsonDocument& d) { return d.size(); }
+size_t dq_nesting(const JsonDocument& d) { return d.nesting(); }
+bool dq_overflowed(const JsonDocument& d) { return d.overflowed(); }
+JsonVariant dq_add_variant(JsonDocument& d) { return d.add<JsonVariant>(); }
+bool dq_add_int(JsonDocument& d, int v) { return d.add(v); }
+bool dq_add_cstr(JsonDocument& d, const char* s) { return d.add(s); }
+void dq_remove_index(JsonDocument& d, size_t i) { d.remove(i); }
+void dq_remove_key(JsonDocument& d, const char* k) { d.remove(k); }
+JsonVariantConst dq_get_key(const JsonDocument& d, const char* k) { return d[k]; }
+JsonVariantConst dq_get_index(const JsonDocument& d, size_t i) { return d[i]; }
+JsonVariant dq_to_variant(JsonDocument& d) { return d; }
+JsonVariantConst dq_to_variantconst(const JsonDocument& d) { return d; }
 }  // namespace api
